@@ -529,3 +529,95 @@ func (g *grammarCtx) peekedBeforeNext(r *RuleResult, sides map[string]bool) {
 		}
 	}
 }
+
+// sharedBufferWindows (C17.R5): a window of a buffer the parser keeps in its own struct (a shared
+// scratch slice that later productions append to) may leave the parser — be returned or stored into a node — only with
+// its capacity clipped to its length (`buf[a:b:b]`). A two-index window keeps the buffer's spare capacity: an append by
+// whoever holds the node (the loader merging an extension's fields into a definition) then writes over the elements the
+// parser put behind it for the next definition, and which definition is damaged depends on source order.
+func (g *grammarCtx) sharedBufferWindows(r *RuleResult) {
+	p := g.p
+	n := 0
+	for _, fn := range g.m.fns {
+		allInstrs(fn, func(in ssa.Instruction) {
+			sl, ok := in.(*ssa.Slice)
+			if !ok {
+				return
+			}
+			buf, ok := fieldBuf(sl.X, 0)
+			if !ok || buf.st != g.m.T {
+				return
+			}
+			if _, isSlice := sl.X.Type().Underlying().(*types.Slice); !isSlice {
+				return
+			}
+			n++
+			clipped := sl.Max != nil && sl.High != nil && stripChange(sl.Max) == stripChange(sl.High)
+			// where does the window go?
+			escapes := ""
+			var visit func(v ssa.Value, d int)
+			seen := map[ssa.Value]bool{}
+			visit = func(v ssa.Value, d int) {
+				if seen[v] || d > 4 || v.Referrers() == nil {
+					return
+				}
+				seen[v] = true
+				for _, ref := range *v.Referrers() {
+					switch x := ref.(type) {
+					case *ssa.Return:
+						escapes = "returned"
+					case *ssa.Store:
+						if x.Val == v {
+							if b2, ok := storedFieldBuf(x); ok && b2 == buf {
+								continue // trimmed in place: p.buf = p.buf[:n]
+							}
+							escapes = "stored"
+						}
+					case *ssa.Phi:
+						visit(x, d+1)
+					case *ssa.ChangeType, *ssa.MakeInterface, *ssa.Convert:
+						visit(x.(ssa.Value), d+1)
+					case *ssa.Call:
+						if b, isB := x.Call.Value.(*ssa.Builtin); isB {
+							switch b.Name() {
+							case "len", "cap", "copy":
+								continue
+							case "append":
+								if len(x.Call.Args) > 0 && x.Call.Args[0] == v {
+									visit(x, d+1) // append(window, ...) continues the window
+								}
+								continue
+							}
+						}
+						escapes = "passed to " + calleeName(x)
+					}
+				}
+			}
+			visit(sl, 0)
+			site := fmt.Sprintf("window of parser.%s at %s in %s", buf.f, p.Pos(sl.Pos()), p.FuncName(fn))
+			switch {
+			case escapes == "":
+				r.OK(site, "stays inside the parser (trimmed in place, copied or measured)")
+			case clipped:
+				r.OK(site, escapes+" with its capacity clipped to its length")
+			default:
+				r.Fail(sl.Pos(), p.FuncName(fn), "window of the shared buffer parser."+buf.f+" "+escapes+" with spare capacity", "the slice handed out still has the buffer's capacity behind it: an append through it (the loader merging extension fields into a definition) overwrites what the parser stored there for the following definition — which definition loses its fields depends on the order of the definitions and on how they are split over sources")
+			}
+		})
+	}
+	if n == 0 {
+		r.OK("the parser keeps no shared slice buffer in its struct", "nothing to clip")
+	}
+}
+
+func storedFieldBuf(st *ssa.Store) (bufID, bool) {
+	fa, ok := st.Addr.(*ssa.FieldAddr)
+	if !ok {
+		return bufID{}, false
+	}
+	n, f, _, ok := fieldOf(fa)
+	if !ok || n == nil {
+		return bufID{}, false
+	}
+	return bufID{n, f}, true
+}
